@@ -1,6 +1,7 @@
 import PpciVerif.Model.Proto
 import PpciVerif.Model.Shape
 import PpciVerif.Model.DataSeg
+import PpciVerif.Model.FuncTable
 /-! Line-protocol driver for C23.
 
   cfg      ::= e<entry> (r | j<t> | c<y>:<n>)*            one term per block, in block order
@@ -15,6 +16,7 @@ import PpciVerif.Model.DataSeg
   t <cfg> | <skeleton> | <bits> K F → ok cfg=<blocks>/<done> wasm=<kind>:<blocks>
   lay <base> <amount>:<len> …      → ok <addr> … end=<addr>           (Model.DataSeg.layout)
   img <base> <amount>:<hex> … @ <addr> <n>  → ok <hex>                (initial memory image)
+  ft <ids> / <ids> / …              → ok table=[…] slots=[…]          (Model.FuncTable.compileModule; `/` separates functions)
 -/
 open Proto Model.Shape
 
@@ -289,6 +291,13 @@ def step (line : String) : String :=
         s!"ok cfg={showTrace (cfgTrace g o K)} wasm={showOut (exec g o F w St.init)}"
       | _, _, _, _, _ => "bad-op"
     | _ => "bad-op"
+  | "ft" :: rest =>
+    let groups := (splitBar (rest.map (fun w => if w == "/" then "|" else w)))
+    match groups.mapM (fun g => g.mapM (fun (w : String) => w.toNat?)) with
+    | some uses =>
+      let r := Model.FuncTable.compileModule uses
+      s!"ok table={showNatList r.1} slots={showNatList r.2}"
+    | none => "bad-op"
   | "lay" :: base :: vars =>
     match base.toNat?, vars.mapM parseVar with
     | some b, some vs =>
